@@ -9,14 +9,22 @@
   and compares the whole processed tree with `Load.load`; `Gen.loadGoroutines` is extracted
   with go/ast on every run and identified below with what the interleaving model assumes.
 
-  Three statements of the property are FALSE of the code (and so of the faithful model).
-  They stay visible as `def …_full : Prop`, are refuted on concrete witnesses
-  (`C15_finding_*`) and proved with the excluding hypothesis (`…_partial`).
+  Configurations. Three statements of the property were FALSE of the code (findings
+  iterator_enabled_expr, hollow_iterator, enabled_error_masked). Two repairs in /repo removed
+  them (notes/C15.fix-1.patch: `iteratorRole.IsEnabled()` = "still holds a generated role";
+  notes/C15.fix-2.patch: the stage-0 callback passes a template error on). `Load.codeCfg` is
+  the code as it is — tied to the source by `C15_pruning_is_code` —, `Load.legacyCfg` the
+  code as it was. The three statements stay visible as `def …_full (cfg) : Prop`; they are
+  PROVED for `codeCfg` (`C15_*_code`, all templates), still refuted for `legacyCfg` on the
+  concrete witnesses (`C15_finding_*`), and the `…_partial` theorems (excluding hypothesis
+  spelled out) hold for every configuration. Theorems that take `cfg` hold for both.
 -/
 import ControlModel.Gen.LoadFacts
 import ControlModel.Proofs.Load
 
 open Load
+
+variable {cfg : Cfg}
 
 /-! ## what the goroutines touch (go/ast facts) -/
 
@@ -41,29 +49,61 @@ def Load.expectedGoroutines : List (String × String × List String × List Stri
     three switches, writes only to the error accumulator and the goroutine's own slot. -/
 theorem C15_goroutines_is_code : Gen.loadGoroutines = Load.expectedGoroutines := by decide
 
+/-! ## which roles a load keeps (go/ast facts) -/
+
+/-- Reading of two source facts as a configuration of the model: what `iteratorRole.IsEnabled()`
+    returns, and under which conditions `MakeDisabledRoleCallback` replaces the error of a stage by
+    `RoleDisabledError`. Anything but the two known shapes of each spot reads as `none`. -/
+def Load.cfgOfSource (iterIsEnabled : String) (guards : List String) : Option Cfg :=
+  let byRaw : Option Bool :=
+    if iterIsEnabled = "len(i.Roles) > 0" then some false
+    else if iterIsEnabled = "i.template.IsEnabled()" then some true
+    else none
+  let mask : Option Bool :=
+    if guards = ["stage == template.STAGE0 && err == nil", "!r.IsEnabled()"] then some false
+    else if guards = ["stage == template.STAGE0", "!r.IsEnabled()"] then some true
+    else none
+  match mask, byRaw with
+  | some m, some r => some { maskEnabledError := m, iterByRawText := r }
+  | _, _ => none
+
+/-- The code, as extracted now, is `codeCfg`: an iterator counts as enabled iff it still holds a
+    generated role, and the stage-0 callback reports "role disabled" only when evaluating
+    `enabled` succeeded. Moreover the two spots the model takes as they are: both
+    `ProcessTemplates` keep exactly the children with `IsEnabled()`, and an aggregator disables
+    itself iff `len(r.Roles) == 0` (`aggOut`). (Reverting either repair in /repo breaks this.) -/
+theorem C15_pruning_is_code :
+    Load.cfgOfSource Gen.loadIteratorIsEnabled Gen.loadDisabledRoleGuards = some codeCfg ∧
+    Gen.loadChildFilters = [("aggregatorRole", "role.IsEnabled()"), ("iteratorRole", "role.IsEnabled()")] ∧
+    Gen.loadSelfDisable = "len(r.Roles) == 0" := by decide
+
+/-- …and the source as it was before the two repairs reads as `legacyCfg`. -/
+theorem C15_legacy_is_former_code :
+    Load.cfgOfSource "i.template.IsEnabled()" ["stage == template.STAGE0", "!r.IsEnabled()"] = some legacyCfg := by decide
+
 /-! ## determinism: schedules and switches -/
 
 /-- Whatever the interleaving of the children's goroutines (any sequence of scheduler
     decisions: run the first pending role of any pending sibling group, or let any later
     sibling go first), the concurrent load yields exactly what `load` yields — same roles,
     order, names, variables, constraints, channels, traits, or the same failure. -/
-theorem C15_schedule_indep (sched : List Step) (t : Tmpl) : loadConc sched t = load t := by
+theorem C15_schedule_indep (sched : List Step) (t : Tmpl) : loadConc cfg sched t = load cfg t := by
   simp [loadConc, load, finish_run, finish_init]
 
 /-- Stronger form on the machine state: no scheduler decision taken from ANY reachable
     partial tree changes the final outcome (the invariant behind `C15_schedule_indep`). -/
-theorem C15_step_invariant (s : PT) (sched : List Step) : finish (run s sched) = finish s :=
+theorem C15_step_invariant (s : PT) (sched : List Step) : finish cfg (run cfg s sched) = finish cfg s :=
   finish_run s sched
 
 /-- The sequential code path (first error returns, later siblings are never processed)
     computes the same as the accumulating concurrent one. -/
-theorem C15_sequential_eq_concurrent (t : Tmpl) : loadSeq t = load t := loadSeq_eq t
+theorem C15_sequential_eq_concurrent (t : Tmpl) : loadSeq cfg t = load cfg t := loadSeq_eq t
 
 /-- Same template + same variables ⇒ same result under every setting of the three
     switches and every schedule. -/
 theorem C15_deterministic (sw sw' : Switches) (sched sched' : List Step) (t : Tmpl) :
-    loadWith sw sched t = loadWith sw' sched' t := by
-  have h : ∀ (s : Switches) (sc : List Step), loadWith s sc t = load t := by
+    loadWith cfg sw sched t = loadWith cfg sw' sched' t := by
+  have h : ∀ (s : Switches) (sc : List Step), loadWith cfg s sc t = load cfg t := by
     intro s sc
     unfold loadWith
     split
@@ -78,17 +118,17 @@ theorem C15_deterministic (sw sw' : Switches) (sched sched' : List Step) (t : Tm
     its children, variables or other fields contain (they are never evaluated). -/
 theorem C15_pruned (ctx : Ctx) (loc : Env) (h : Hdr) (en : String)
     (he : evalField (ctx.look loc) h.enabled = some en) (hf : truthy en = false) :
-    (∀ kids next, proc ctx loc (.agg h kids next) = proc ctx loc next) ∧
-    (∀ x c next, proc ctx loc (.task h x c next) = proc ctx loc next) ∧
-    (∀ x c next, proc ctx loc (.call h x c next) = proc ctx loc next) := by
+    (∀ kids next, proc cfg ctx loc (.agg h kids next) = proc cfg ctx loc next) ∧
+    (∀ x c next, proc cfg ctx loc (.task h x c next) = proc cfg ctx loc next) ∧
+    (∀ x c next, proc cfg ctx loc (.call h x c next) = proc cfg ctx loc next) := by
   refine ⟨?_, ?_, ?_⟩ <;> intros <;> simp [proc, procHdr_disabled he hf, leafOut]
 
 /-- Every role left in a loaded tree has an `enabled` that reads true/1 (all templates). -/
-theorem C15_only_enabled_remain (t : Tmpl) : (load t).all allEnabled = true := by
+theorem C15_only_enabled_remain (t : Tmpl) : (load cfg t).all allEnabled = true := by
   unfold load Out.loaded
   split
   · rfl
-  · have h := allEnabled_flatten _ (proc_allEnabled t {} [])
+  · have h := allEnabled_flatten _ (proc_allEnabled (cfg := cfg) t {} [])
     split
     · rfl
     · simp [Loaded.all, h]
@@ -97,24 +137,25 @@ theorem C15_only_enabled_remain (t : Tmpl) : (load t).all allEnabled = true := b
 
 /-- An enabled aggregator all of whose children were pruned disappears itself. -/
 theorem C15_empty_agg_gone (ctx : Ctx) (loc : Env) (h : Hdr) (kids next : Tmpl) (i : Info) (c' : Ctx) (ex : List String)
-    (hh : procHdr ctx loc h [] = .ok i c' ex) (hk : (proc c' [] kids).f = .nil) :
-    (proc ctx loc (.agg h kids next)).f = (proc ctx loc next).f := by
+    (hh : procHdr ctx loc h [] = .ok i c' ex) (hk : (proc cfg c' [] kids).f = .nil) :
+    (proc cfg ctx loc (.agg h kids next)).f = (proc cfg ctx loc next).f := by
   simp [proc, hh, aggOut, hk]
 
 /-- In the tree as the code stores it (iterator nodes are members of `Roles`) no aggregator
     has an empty `Roles` — for every template. -/
-theorem C15_no_empty_roles (ctx : Ctx) (loc : Env) (t : Tmpl) : noEmptyAgg (proc ctx loc t).f = true :=
+theorem C15_no_empty_roles (ctx : Ctx) (loc : Env) (t : Tmpl) : noEmptyAgg (proc cfg ctx loc t).f = true :=
   proc_noEmptyAgg t ctx loc
 
-/-- FULL-STRENGTH statement (FALSE of the code, see `C15_finding_hollow_iterator`): in the
-    loaded tree, as `GetRoles` shows it, no aggregator is without roles. -/
-def C15_empty_agg_gone_full : Prop := ∀ t : Tmpl, (load t).all noEmptyAgg = true
+/-- FULL-STRENGTH statement (true of the code as it is: `C15_empty_agg_gone_code`; false of the
+    code as it was: `C15_finding_hollow_iterator`): in the loaded tree, as `GetRoles` shows it, no
+    aggregator is without roles. -/
+def C15_empty_agg_gone_full (cfg : Cfg) : Prop := ∀ t : Tmpl, (load cfg t).all noEmptyAgg = true
 
-/-- What IS proved: the same, for loads in which no aggregator was kept whose `Roles` held
-    nothing but iterators that yielded no role (`ev.hollow = false`, a computable predicate
+/-- For every configuration: the same, for loads in which no aggregator was kept whose `Roles`
+    held nothing but iterators that yielded no role (`ev.hollow = false`, a computable predicate
     of the template). -/
-theorem C15_empty_agg_gone_partial (t : Tmpl) (h : (proc {} [] t).ev.hollow = false) :
-    (load t).all noEmptyAgg = true := by
+theorem C15_empty_agg_gone_partial (t : Tmpl) (h : (proc cfg {} [] t).ev.hollow = false) :
+    (load cfg t).all noEmptyAgg = true := by
   unfold load Out.loaded
   split
   · rfl
@@ -125,14 +166,31 @@ theorem C15_empty_agg_gone_partial (t : Tmpl) (h : (proc {} [] t).ev.hollow = fa
 
 /-! ## iterators -/
 
-/-- An iterator whose range evaluates to `vals` (and whose template's `enabled` is literally
-    true) yields the concatenation, in range order, of what its template yields with the
-    iteration variable bound to each element — nothing else, nothing reordered. -/
+/-- An iterator whose range evaluates to `vals` and which its parent keeps (`iterKeep`: for the
+    code as it is, at least one generated role is left; for the code as it was, the template's
+    raw `enabled` text reads true) is stored as ONE iterator node holding the concatenation, in
+    range order, of what its template yields with the iteration variable bound to each element —
+    nothing else, nothing reordered. -/
 theorem C15_iterator_expansion (ctx : Ctx) (loc : Env) (rng : RangeT) (var : String) (body next : Tmpl) (vals : List String)
-    (hr : evalRange ctx.lookRange rng = some vals) (hen : rawEnabled body = true) :
-    (proc ctx loc (.iter rng var body next)).f =
-      .iter (vals.foldr (fun v acc => (proc ctx [(var, v)] body).f ++ acc) .nil) .nil ++ (proc ctx loc next).f := by
+    (hr : evalRange ctx.lookRange rng = some vals)
+    (hen : iterKeep cfg (rawEnabled body) (vals.foldr (fun v acc => (proc cfg ctx [(var, v)] body).f ++ acc) .nil) = true) :
+    (proc cfg ctx loc (.iter rng var body next)).f =
+      .iter (vals.foldr (fun v acc => (proc cfg ctx [(var, v)] body).f ++ acc) .nil) .nil ++ (proc cfg ctx loc next).f := by
   simp [proc, hr, hen, iterOut, fold_f]
+
+/-- THE CODE AS IT IS, no side condition: seen through `GetRoles` (iterator nodes transparent) an
+    iterator whose range evaluates to `vals` contributes exactly the concatenation, in range
+    order, of what its template yields per element — whatever the template's `enabled` looks
+    like (it is each generated role's own `enabled`), also when nothing is left. -/
+theorem C15_iterator_expansion_code (ctx : Ctx) (loc : Env) (rng : RangeT) (var : String) (body next : Tmpl) (vals : List String)
+    (hr : evalRange ctx.lookRange rng = some vals) :
+    (proc codeCfg ctx loc (.iter rng var body next)).f.flatten =
+      (vals.foldr (fun v acc => (proc codeCfg ctx [(var, v)] body).f ++ acc) .nil).flatten ++
+        (proc codeCfg ctx loc next).f.flatten := by
+  simp only [proc, hr, Out.seq_f, Tree.flatten_append, iterOut_f, fold_f]
+  congr 1
+  generalize vals.foldr (fun v acc => (proc codeCfg ctx [(var, v)] body).f ++ acc) .nil = kf
+  cases kf <;> simp [iterKeep, codeCfg, Tree.isNil, Tree.flatten]
 
 /-- …exactly one child per element, in order, with the iteration variable bound: reading the
     iterator's children by their own binding of the iteration variable gives the range elements
@@ -140,12 +198,12 @@ theorem C15_iterator_expansion (ctx : Ctx) (loc : Env) (rng : RangeT) (var : Str
     children are in one-to-one, order-preserving correspondence with the range. -/
 theorem C15_iterator_one_per_element_in_order (ctx : Ctx) (var : String) (body : Tmpl) (hs : single body = true)
     (vals : List String) :
-    let kids := (vals.foldr (fun v acc => (proc ctx [(var, v)] body).seq acc) Out.empty).f
+    let kids := (vals.foldr (fun v acc => (proc cfg ctx [(var, v)] body).seq acc) Out.empty).f
     kids.infos.map (fun i => lookup i.ownV var) =
-      (vals.filter fun v => !(proc ctx [(var, v)] body).f.isNil).map some ∧
-    ((∀ v ∈ vals, (proc ctx [(var, v)] body).f.isNil = false) →
+      (vals.filter fun v => !(proc cfg ctx [(var, v)] body).f.isNil).map some ∧
+    ((∀ v ∈ vals, (proc cfg ctx [(var, v)] body).f.isNil = false) →
       kids.infos.map (fun i => lookup i.ownV var) = vals.map some) := by
-  have h := iter_bindings ctx var body hs vals
+  have h := iter_bindings (cfg := cfg) ctx var body hs vals
   refine ⟨h, fun hall => ?_⟩
   rw [h]
   congr 1
@@ -184,9 +242,10 @@ theorem C15_iteration_var_reaches_children (ctx : Ctx) (var v : String) (h : Hdr
 theorem C15_nested_iterator_own_range (ctx : Ctx) (var v : String) (h : Hdr) (rng2 : RangeT) (var2 : String)
     (body2 knext : Tmpl) (i : Info) (c' : Ctx) (ex : List String) (ws : List String)
     (hh : procHdr ctx [(var, v)] h [] = .ok i c' ex)
-    (hr : evalRange c'.lookRange rng2 = some ws) (hen : rawEnabled body2 = true) :
-    (proc ctx [(var, v)] (.agg h (.iter rng2 var2 body2 knext) .nil)).f =
-      .agg i (.iter (ws.foldr (fun w acc => (proc c' [(var2, w)] body2).f ++ acc) .nil) .nil ++ (proc c' [] knext).f) .nil := by
+    (hr : evalRange c'.lookRange rng2 = some ws)
+    (hen : iterKeep cfg (rawEnabled body2) (ws.foldr (fun w acc => (proc cfg c' [(var2, w)] body2).f ++ acc) .nil) = true) :
+    (proc cfg ctx [(var, v)] (.agg h (.iter rng2 var2 body2 knext) .nil)).f =
+      .agg i (.iter (ws.foldr (fun w acc => (proc cfg c' [(var2, w)] body2).f ++ acc) .nil) .nil ++ (proc cfg c' [] knext).f) .nil := by
   simp [proc, hh, hr, hen, iterOut, fold_f, aggOut]
 
 /-- …and when the inner range does not evaluate in that child's stack (e.g. a bound that is not
@@ -194,7 +253,7 @@ theorem C15_nested_iterator_own_range (ctx : Ctx) (var v : String) (h : Hdr) (rn
 theorem C15_nested_iterator_range_error (ctx : Ctx) (var v : String) (h : Hdr) (rng2 : RangeT) (var2 : String)
     (body2 knext next : Tmpl) (i : Info) (c' : Ctx) (ex : List String)
     (hh : procHdr ctx [(var, v)] h [] = .ok i c' ex) (hr : evalRange c'.lookRange rng2 = none) :
-    (proc ctx [(var, v)] (.agg h (.iter rng2 var2 body2 knext) next)).err = true := by
+    (proc cfg ctx [(var, v)] (.agg h (.iter rng2 var2 body2 knext) next)).err = true := by
   simp [proc, hh, hr]
 
 /-- Sibling copies of an iterator's template do not influence each other (no state is shared
@@ -202,50 +261,59 @@ theorem C15_nested_iterator_range_error (ctx : Ctx) (var v : String) (h : Hdr) (
     outcomes, so what is generated for one element — nested iterators at any depth included,
     `body` is arbitrary — is a function of that element and the parent's stack alone. -/
 theorem C15_iterator_children_independent (ctx : Ctx) (var : String) (body : Tmpl) (vs₁ vs₂ : List String) :
-    (vs₁ ++ vs₂).foldr (fun v acc => (proc ctx [(var, v)] body).seq acc) Out.empty =
-      (vs₁.foldr (fun v acc => (proc ctx [(var, v)] body).seq acc) Out.empty).seq
-        (vs₂.foldr (fun v acc => (proc ctx [(var, v)] body).seq acc) Out.empty) :=
+    (vs₁ ++ vs₂).foldr (fun v acc => (proc cfg ctx [(var, v)] body).seq acc) Out.empty =
+      (vs₁.foldr (fun v acc => (proc cfg ctx [(var, v)] body).seq acc) Out.empty).seq
+        (vs₂.foldr (fun v acc => (proc cfg ctx [(var, v)] body).seq acc) Out.empty) :=
   fold_append ctx var body vs₁ vs₂
 
-/-- EVERY nesting depth: in a nest of n iterators (`nest`, n = `ls.length + 1`, each over an
-    aggregator with a plain truthy `enabled`) the task / call roles are, in order, those of the
+/-- EVERY nesting depth: in a nest of n iterators (`nest`, n = `ls.length + 1`; for the code as
+    it was — and only for it — each over an aggregator with a plain truthy `enabled`, see
+    `C15_nested_every_depth_code`) the task / call roles are, in order, those of the
     innermost template instantiated once per stack of `nestCtxs` — i.e. one instance per tuple
     (w₁, …, wₙ) with wₖ ranging, in range order, over level k's range evaluated in the stack of
     the role generated for (w₁, …, wₖ₋₁). -/
 theorem C15_nested_every_depth (ctx : Ctx) (loc : Env) (l : Level) (ls : List Level) (inner : Tmpl)
-    (hen : nestEnabled (l :: ls) = true) :
-    (proc ctx loc (nest (l :: ls) inner)).f.leaves =
-      (nestCtxs ctx (l :: ls)).flatMap fun c => (proc c [] inner).f.leaves := by
+    (hen : cfg.iterByRawText = true → nestEnabled (l :: ls) = true) :
+    (proc cfg ctx loc (nest (l :: ls) inner)).f.leaves =
+      (nestCtxs ctx (l :: ls)).flatMap fun c => (proc cfg c [] inner).f.leaves := by
   rw [← nest_leaves inner (l :: ls) ctx hen]
   simp only [nest]
   rw [proc_iter_loc]
 
+/-- THE CODE AS IT IS, no side condition on the `enabled` fields of the levels: they may be
+    expressions, also over the iteration variables; a generated aggregator whose `enabled` is
+    false (or fails) simply has no stack in `nestCtxs`. -/
+theorem C15_nested_every_depth_code (ctx : Ctx) (loc : Env) (l : Level) (ls : List Level) (inner : Tmpl) :
+    (proc codeCfg ctx loc (nest (l :: ls) inner)).f.leaves =
+      (nestCtxs ctx (l :: ls)).flatMap fun c => (proc codeCfg c [] inner).f.leaves :=
+  C15_nested_every_depth ctx loc l ls inner (fun h => by cases h)
+
 /-- …under every schedule and every setting of the three switches (nests are templates). -/
 theorem C15_nested_schedule_indep (sw : Switches) (sched : List Step) (root : Hdr) (ls : List Level) (inner : Tmpl) :
-    loadWith sw sched (.agg root (nest ls inner) .nil) = load (.agg root (nest ls inner) .nil) := by
+    loadWith cfg sw sched (.agg root (nest ls inner) .nil) = load cfg (.agg root (nest ls inner) .nil) := by
   unfold loadWith
   split
   · exact loadSeq_eq _
   · exact C15_schedule_indep sched _
 
-/-- FULL-STRENGTH statement (FALSE of the code, see `C15_finding_iterator_enabled_expr`):
-    the code's loader yields what the ideal loader yields whenever no `enabled` fails to
+/-- FULL-STRENGTH statement (true of the code as it is: `C15_iterator_code`; false of the code as
+    it was: `C15_finding_iterator_enabled_expr`): the code's loader yields what the ideal loader yields whenever no `enabled` fails to
     evaluate and no hollow aggregator is kept — i.e. iterators contribute one child per
     surviving element whatever their template's `enabled` looks like. -/
-def C15_iterator_full : Prop :=
-  ∀ t : Tmpl, (proc {} [] t).ev.masked = false → (proc {} [] t).ev.hollow = false → load t = idealLoad t
+def C15_iterator_full (cfg : Cfg) : Prop :=
+  ∀ t : Tmpl, (proc cfg {} [] t).ev.masked = false → (proc cfg {} [] t).ev.hollow = false → load cfg t = idealLoad t
 
 /-! ## template errors -/
 
 /-- An error in any field other than `enabled` of a role that is processed makes the
     sibling list's result an error, whatever the other siblings yield. -/
 theorem C15_error_propagates (ctx : Ctx) (loc : Env) :
-    (∀ h kids next, procHdr ctx loc h [] = .error → (proc ctx loc (.agg h kids next)).err = true) ∧
-    (∀ h x c next, procHdr ctx loc h x = .error → (proc ctx loc (.task h x c next)).err = true) ∧
-    (∀ h x c next, procHdr ctx loc h x = .error → (proc ctx loc (.call h x c next)).err = true) ∧
-    (∀ rng var body next, evalRange ctx.lookRange rng = none → (proc ctx loc (.iter rng var body next)).err = true) ∧
-    (∀ h kids next i c' ex, procHdr ctx loc h [] = .ok i c' ex → (proc c' [] kids).err = true →
-        (proc ctx loc (.agg h kids next)).err = true) := by
+    (∀ h kids next, procHdr ctx loc h [] = .error → (proc cfg ctx loc (.agg h kids next)).err = true) ∧
+    (∀ h x c next, procHdr ctx loc h x = .error → (proc cfg ctx loc (.task h x c next)).err = true) ∧
+    (∀ h x c next, procHdr ctx loc h x = .error → (proc cfg ctx loc (.call h x c next)).err = true) ∧
+    (∀ rng var body next, evalRange ctx.lookRange rng = none → (proc cfg ctx loc (.iter rng var body next)).err = true) ∧
+    (∀ h kids next i c' ex, procHdr ctx loc h [] = .ok i c' ex → (proc cfg c' [] kids).err = true →
+        (proc cfg ctx loc (.agg h kids next)).err = true) := by
   refine ⟨?_, ?_, ?_, ?_, ?_⟩
   · intro h kids next hh; simp [proc, hh]
   · intro h x c next hh; simp [proc, hh, leafOut]
@@ -256,13 +324,13 @@ theorem C15_error_propagates (ctx : Ctx) (loc : Env) :
 /-- If, under ANY schedule, some goroutine has hit a template error, the load fails: no
     partial tree is handed back. -/
 theorem C15_error_fails_load (sched : List Step) (t : Tmpl)
-    (h : hasFailed (run (.pend {} [] t .nil) sched) = true) : load t = .error := by
-  have := hasFailed_err _ h
+    (h : hasFailed (run cfg (.pend {} [] t .nil) sched) = true) : load cfg t = .error := by
+  have := hasFailed_err (cfg := cfg) _ h
   rw [finish_run, finish_init] at this
   simp [load, Out.loaded, this]
 
 /-- A failed load exposes no tree, and a load that hands back a tree had no error anywhere. -/
-theorem C15_error_no_partial_tree (t : Tmpl) : (proc {} [] t).err = true ↔ load t = .error := by
+theorem C15_error_no_partial_tree (t : Tmpl) : (proc cfg {} [] t).err = true ↔ load cfg t = .error := by
   unfold load Out.loaded
   constructor
   · intro h; simp [h]
@@ -271,34 +339,35 @@ theorem C15_error_no_partial_tree (t : Tmpl) : (proc {} [] t).err = true ↔ loa
     · assumption
     · split at h <;> cases h
 
-/-- FULL-STRENGTH statement (FALSE of the code, see `C15_finding_enabled_error_masked`):
-    ANY template error — also one in an `enabled` expression — fails the load. -/
-def C15_error_full : Prop := ∀ t : Tmpl, (ideal {} [] t).err = true → load t = .error
+/-- FULL-STRENGTH statement (true of the code as it is: `C15_error_code`; false of the code as it
+    was: `C15_finding_enabled_error_masked`): ANY template error — also one in an `enabled` expression — fails the load. -/
+def C15_error_full (cfg : Cfg) : Prop := ∀ t : Tmpl, (ideal {} [] t).err = true → load cfg t = .error
 
-/-- What IS proved: every template error fails the load, for loads in which no `enabled`
-    expression failed to evaluate (`ev.masked = false`)… -/
-theorem C15_error_partial (t : Tmpl) (hm : (proc {} [] t).ev.none = true) (he : (ideal {} [] t).err = true) :
-    load t = .error := by
+/-- For every configuration: every template error fails the load, for loads free of the three
+    recorded behaviours (`ev.none`; for the legacy code the one that matters is `ev.masked`). -/
+theorem C15_error_partial (t : Tmpl) (hm : (proc cfg {} [] t).ev.none = true) (he : (ideal {} [] t).err = true) :
+    load cfg t = .error := by
   rw [proc_ideal t {} [] hm] at he
   simp [load, Out.loaded, Out.toI] at he ⊢
   simp [he]
 
 /-! ## the code against the ideal loader -/
 
-/-- When none of the three recorded behaviours occurs in a load (no `enabled` expression
+/-- For every configuration: when none of the three recorded behaviours occurs in a load (no `enabled` expression
     fails to evaluate, no iterator with surviving children is dropped because of its
     template's raw `enabled`, no aggregator is kept over iterators that yielded nothing), the
     code's loader returns exactly what the property demands (`Spec`). -/
-theorem C15_code_meets_spec_partial (t : Tmpl) (h : (proc {} [] t).ev.none = true) : Spec t (load t) = true := by
+theorem C15_code_meets_spec_partial (t : Tmpl) (h : (proc cfg {} [] t).ev.none = true) : Spec t (load cfg t) = true := by
   simp [Spec, load_ideal t h]
 
-/-- What IS proved in place of `C15_iterator_full`: the same, for templates in which every
+/-- For every configuration (what was proved in place of `C15_iterator_full` while the finding was
+    open): the same, for templates in which every
     iterator's template is one role whose `enabled` is plain text (a purely syntactic,
     decidable condition) — then the dropped-iterator behaviour cannot occur. -/
 theorem C15_iterator_partial (t : Tmpl) (hl : iterEnabledLiteral t = true)
-    (hm : (proc {} [] t).ev.masked = false) (hh : (proc {} [] t).ev.hollow = false) : load t = idealLoad t := by
+    (hm : (proc cfg {} [] t).ev.masked = false) (hh : (proc cfg {} [] t).ev.hollow = false) : load cfg t = idealLoad t := by
   apply load_ideal
-  have hd := proc_no_iterDrop t {} [] hl
+  have hd := proc_no_iterDrop (cfg := cfg) t {} [] hl
   simp [Events.none, hm, hh, hd]
 
 /-- The ideal loader's result never contains an empty aggregator or an iterator node (all templates). -/
@@ -311,6 +380,76 @@ theorem C15_ideal_wellformed (t : Tmpl) :
   · split
     · exact ⟨rfl, rfl⟩
     · simp [Loaded.all, h.1, h.2]
+
+/-! ## the code as it is (after the two repairs): the three statements at full strength -/
+
+/-- For THE CODE AS IT IS none of the three recorded behaviours exists: whatever the template,
+    whatever stack and locals a sibling list is processed under, no `enabled` error is swallowed,
+    no iterator is dropped although it generated a role that is left, no aggregator is kept over
+    iterators that yielded nothing. -/
+theorem C15_no_recorded_behaviour_code (t : Tmpl) (ctx : Ctx) (loc : Env) : (proc codeCfg ctx loc t).ev = {} :=
+  proc_code_ev rfl rfl t ctx loc
+
+/-- In the tree as the code stores it NOW every iterator node holds at least one role, and a
+    sibling list that is not empty contains a real (non-iterator) role. -/
+theorem C15_no_hollow_iterator_code (t : Tmpl) (ctx : Ctx) (loc : Env) :
+    hasNode (proc codeCfg ctx loc t).f = !(proc codeCfg ctx loc t).f.isNil :=
+  proc_code_solid rfl t ctx loc
+
+/-- THE PROPERTY, for the code as it is, ALL templates, no hypothesis: the loader returns exactly
+    what the ideal loader of `Spec/C15.lean` returns — disabled roles absent with their subtree,
+    aggregators left empty gone, one instance of an iterator's template per range element in order
+    (each instance deciding its own `enabled`), and ANY template error fails the load. -/
+theorem C15_code_meets_spec (t : Tmpl) : Spec t (load codeCfg t) = true := by
+  simp [Spec, load_code_ideal t]
+
+/-- …under every setting of the three switches and every schedule. -/
+theorem C15_code_meets_spec_all_schedules (sw : Switches) (sched : List Step) (t : Tmpl) :
+    Spec t (loadWith codeCfg sw sched t) = true := by
+  have h : loadWith codeCfg sw sched t = load codeCfg t := by
+    unfold loadWith
+    split
+    · exact loadSeq_eq t
+    · exact C15_schedule_indep sched t
+  rw [h]; exact C15_code_meets_spec t
+
+/-- `C15_iterator_full`, PROVED for the code as it is (was finding iterator_enabled_expr). -/
+theorem C15_iterator_code : C15_iterator_full codeCfg := fun t _ _ => load_code_ideal t
+
+/-- `C15_empty_agg_gone_full`, PROVED for the code as it is (was finding hollow_iterator). -/
+theorem C15_empty_agg_gone_code : C15_empty_agg_gone_full codeCfg := by
+  intro t
+  rw [load_code_ideal t]
+  exact (C15_ideal_wellformed t).1
+
+/-- `C15_error_full`, PROVED for the code as it is (was finding enabled_error_masked): a template
+    error in ANY field of a role that is reached, `enabled` included, fails the load. -/
+theorem C15_error_code : C15_error_full codeCfg := by
+  intro t he
+  rw [load_code_ideal t]
+  simp [idealLoad, IOut.loaded, he]
+
+/-- An `enabled` expression that does not evaluate fails the load of its sibling list (stated on
+    the role itself; `C15_error_code` is the statement for whole templates). -/
+theorem C15_enabled_error_propagates_code (ctx : Ctx) (loc : Env) (h : Hdr)
+    (he : evalField (ctx.look loc) h.enabled = none) :
+    (∀ kids next, (proc codeCfg ctx loc (.agg h kids next)).err = true) ∧
+    (∀ x c next, (proc codeCfg ctx loc (.task h x c next)).err = true) ∧
+    (∀ x c next, (proc codeCfg ctx loc (.call h x c next)).err = true) := by
+  refine ⟨?_, ?_, ?_⟩ <;> intros <;> simp [proc, procHdr_masked he, leafOut, maskedOut, codeCfg]
+
+/-- The two repairs are conservative: a load that was free of the three behaviours under the
+    code as it was gives exactly the same result under the code as it is. -/
+theorem C15_repair_conservative (t : Tmpl) (h : (proc legacyCfg {} [] t).ev.none = true) :
+    load codeCfg t = load legacyCfg t := by
+  rw [load_code_ideal t, load_ideal t h]
+
+/-- …and, syntactically: templates in which every iterator's template carries a literal
+    `enabled`, loaded without a swallowed `enabled` error and without a hollow aggregator. -/
+theorem C15_repair_conservative_literal (t : Tmpl) (hl : iterEnabledLiteral t = true)
+    (hm : (proc legacyCfg {} [] t).ev.masked = false) (hh : (proc legacyCfg {} [] t).ev.hollow = false) :
+    load codeCfg t = load legacyCfg t := by
+  rw [load_code_ideal t, C15_iterator_partial t hl hm hh]
 
 /-! ## findings, machine-checked on witnesses -/
 
@@ -355,31 +494,43 @@ def nested : Tmpl :=
 
 end Load.Witness
 
-/-- Finding `iterator_enabled_expr`: an iterator whose template carries
-    `enabled: "{{ e == 'on' }}"` (true for every element) contributes NO role: the parent
-    aggregator asks `iteratorRole.IsEnabled()`, which looks at the template's unprocessed text. -/
-theorem C15_finding_iterator_enabled_expr : ¬ C15_iterator_full := by
+/-- Finding `iterator_enabled_expr` (the code AS IT WAS, repaired by C15.fix-1): an iterator whose
+    template carries `enabled: "{{ e == 'on' }}"` (true for every element) contributed NO role: the
+    parent aggregator asks `iteratorRole.IsEnabled()`, which looked at the template's unprocessed text. -/
+theorem C15_finding_iterator_enabled_expr : ¬ C15_iterator_full legacyCfg := by
   intro h
   have := h Load.Witness.iterExpr (by decide) (by decide)
   revert this; decide
 
-/-- Finding `hollow_iterator`: an aggregator whose only child is an iterator over an empty
-    range stays in the tree, enabled, with no roles. -/
-theorem C15_finding_hollow_iterator : ¬ C15_empty_agg_gone_full := by
+/-- Finding `hollow_iterator` (the code AS IT WAS, repaired by C15.fix-1): an aggregator whose only
+    child is an iterator over an empty range stayed in the tree, enabled, with no roles. -/
+theorem C15_finding_hollow_iterator : ¬ C15_empty_agg_gone_full legacyCfg := by
   intro h
   have := h Load.Witness.hollow
   revert this; decide
 
-/-- Finding `enabled_error_masked`: an unknown variable in an `enabled` expression does not
-    fail the load; the role is silently dropped. -/
-theorem C15_finding_enabled_error_masked : ¬ C15_error_full := by
+/-- Finding `enabled_error_masked` (the code AS IT WAS, repaired by C15.fix-2): an unknown variable
+    in an `enabled` expression did not fail the load; the role was silently dropped. -/
+theorem C15_finding_enabled_error_masked : ¬ C15_error_full legacyCfg := by
   intro h
   have := h Load.Witness.masked (by decide)
   revert this; decide
 
+/-- The three former witnesses under the code as it is: the iterator with a templated `enabled`
+    yields its two tasks, the aggregator over an empty iterator is gone, the typo in `enabled`
+    fails the load. -/
+example :
+    (match load codeCfg Load.Witness.iterExpr with | .tree tr => tr.leaves.map (·.name) | _ => []) = ["t-1", "t-2"] ∧
+    (match load codeCfg Load.Witness.hollow with | .tree (.agg _ k _) => k.infos.map (·.name) | _ => []) = ["a"] ∧
+    load codeCfg Load.Witness.masked = .error ∧
+    load legacyCfg Load.Witness.iterExpr = .none ∧
+    (match load legacyCfg Load.Witness.hollow with | .tree (.agg _ k _) => k.infos.map (·.name) | _ => []) = ["a", "g"] ∧
+    (match load legacyCfg Load.Witness.masked with | .tree (.agg _ k _) => k.infos.map (·.name) | _ => []) = ["a"] := by decide
+
 /-- Non-vacuity: a realistic template (variables across levels, an iterator over a list held
     in a variable, a disabled role, a role enabled by an expression) triggers none of the three
-    behaviours, loads to a tree, and that tree has three roles under the root. -/
+    behaviours, loads to a tree, and that tree has three roles under the root — for the code as
+    it is and, identically, for the code as it was. -/
 example :
     let t : Tmpl :=
       .agg { Load.Witness.hdr "wf" (Load.Witness.lit "true") [("hosts", Load.Witness.lit "[\"h1\",\"h2\"]"), ("qc", Load.Witness.lit "false")]
@@ -389,8 +540,9 @@ example :
             (.task (Load.Witness.hdr "readout" (Load.Witness.lit " TRUE ")) Load.Witness.taskX true
               (.task (Load.Witness.hdr "qc" [.bool (.eq (.var "qc") (.lit "true"))]) Load.Witness.taskX false .nil)) .nil)
           (.call (Load.Witness.hdr "cfg" [.bool (.ne (.var "run") (.lit "0"))]) [Load.Witness.lit "f()", [], Load.Witness.lit "0s", [], []] true .nil)) .nil
-    (proc {} [] t).ev.none = true ∧ (proc {} [] t).err = false ∧
-      (match load t with | .tree (.agg _ k _) => k.len | _ => 0) = 3 := by decide
+    (proc codeCfg {} [] t).ev.none = true ∧ (proc codeCfg {} [] t).err = false ∧
+      (match load codeCfg t with | .tree (.agg _ k _) => k.len | _ => 0) = 3 ∧
+      (proc legacyCfg {} [] t).ev.none = true ∧ load legacyCfg t = load codeCfg t := by decide
 
 /-- Non-vacuity for the nested-iterator theorems: a depth-2 nest whose inner range is
     `1..{{ n }}` with `n` set by each generated child from the outer iteration variable loads
@@ -398,8 +550,9 @@ example :
     order; `nestCtxs` has the 1 + 2 + 3 = 6 stacks, the last of which binds i = 3, j = 3. -/
 example :
     nestEnabled Load.Witness.nestLevels = true ∧
-    (proc {} [] Load.Witness.nested).ev.none = true ∧ (proc {} [] Load.Witness.nested).err = false ∧
-    (match load Load.Witness.nested with | .tree tr => tr.leaves.map (·.name) | _ => []) =
+    (proc codeCfg {} [] Load.Witness.nested).ev.none = true ∧ (proc codeCfg {} [] Load.Witness.nested).err = false ∧
+    (proc legacyCfg {} [] Load.Witness.nested).ev.none = true ∧
+    (match load codeCfg Load.Witness.nested with | .tree tr => tr.leaves.map (·.name) | _ => []) =
       ["t-1-1", "t-2-1", "t-2-2", "t-3-1", "t-3-2", "t-3-3"] ∧
     (nestCtxs {} Load.Witness.nestLevels).map (fun c => (c.lookRange "i", c.lookRange "j")) =
       [(some "1", some "1"), (some "2", some "1"), (some "2", some "2"),
